@@ -14,19 +14,20 @@ import (
 
 // checkCtx is the state of one `vcheck check` invocation.
 type checkCtx struct {
-	ID      string
-	Tier    string
-	Seed    uint64
-	Root    string
-	T0      time.Time
-	S       *Scratch
-	Known   []Finding
-	Par     int
-	nViol   int // unlisted violations
-	nKnown  int
-	infra   []string
-	replays []string
-	seen    map[string]int // violation key -> times seen
+	ID       string
+	Tier     string
+	Seed     uint64
+	Root     string
+	T0       time.Time
+	S        *Scratch
+	Known    []Finding
+	Par      int
+	nViol    int // unlisted violations
+	nKnown   int
+	infra    []string
+	replays  []string
+	seen     map[string]int // violation key -> times seen
+	detSlice string
 }
 
 func (c *checkCtx) evidencePath() string {
@@ -165,6 +166,9 @@ func (c *checkCtx) writeEvidence(level string, cov map[string]interface{}, assum
 		"simulator_owns": []string{"caller goroutine choice (cooperative scheduler)", "map iteration order", "value-transformation hook failure", "parse budget", "forced GC", "caller-side mutation of data"},
 	}
 	cov["timing_s"] = c.S.Timing
+	if c.detSlice != "" {
+		cov["determinism_slice"] = c.detSlice
+	}
 	cov["known_findings_matched"] = c.nKnown
 	cov["infra_problems"] = nonNil(c.infra)
 	cov["replay_files"] = nonNil(c.replays)
@@ -250,7 +254,50 @@ func runCheck(args []string) int {
 	}
 	c.S = s
 	defer s.Remove()
+	if c.Tier == "thorough" {
+		c.determinismSlice()
+	}
 	code := fn(c)
 	fmt.Printf("vcheck %s done: exit=%d violations=%d known=%d wall=%.1fs evidence=%s\n", c.ID, code, c.nViol, c.nKnown, time.Since(c.T0).Seconds(), c.evidencePath())
 	return code
+}
+
+// determinismSlice (thorough tier): the engine's worker is run in fresh
+// processes at GOMAXPROCS 1 and 4 (twice each) on a small seeded slice; the
+// result documents must be byte-identical, otherwise nothing the engine says
+// is believed (exit 2).
+func (c *checkCtx) determinismSlice() {
+	seed := strconv.FormatUint(c.Seed+99, 10)
+	var args []string
+	var types []string
+	switch c.ID {
+	case "C11":
+		args, types = []string{"c11", "-seed", seed, "-from", "70", "-to", "86", "-tier", "quick"}, []string{"summary", "violation"}
+	case "C14":
+		args, types = []string{"c14", "-seed", seed, "-from", "0", "-to", "160", "-k", "4"}, []string{"summary", "violation"}
+	case "C13":
+		args, types = []string{"sched-genexec", "-k", "13", "-seed", seed, "-from", "0", "-to", "48"}, []string{"result", "violation"}
+	case "C12":
+		args, types = []string{"sched-genexec", "-k", "12", "-seed", seed, "-from", "0", "-to", "64"}, []string{"result", "violation"}
+	default:
+		return
+	}
+	var ref uint64
+	var refN, runs int
+	for _, gp := range []string{"1", "4", "1", "4"} {
+		w := runWorker(c.S.Plain, args, []string{"GOMAXPROCS=" + gp}, 10*time.Minute)
+		if w.ExitCode != 0 {
+			c.infraf("determinism slice: %s", describeFailure(w))
+			return
+		}
+		d, n := digestDocs(w, types...)
+		if runs == 0 {
+			ref, refN = d, n
+		} else if d != ref || n != refN {
+			c.infraf("determinism slice FAILED: the same seed gave different result documents in two fresh processes (GOMAXPROCS=%s): %x/%d vs %x/%d", gp, d, n, ref, refN)
+			return
+		}
+		runs++
+	}
+	c.detSlice = fmt.Sprintf("%d fresh worker processes (GOMAXPROCS 1,4,1,4) on a seeded slice produced byte-identical result documents (%d documents, digest %x)", runs, refN, ref)
 }
